@@ -142,7 +142,7 @@ fn sizes(p: &[TInd], o: &[TInd]) -> String {
 
 pub fn run(rep: &mut Report) {
     rep.alpha("operators DiscardOffspring, Merge, MuPlusLambda(mu), Generational(mu), RandomReplacement(mu), KeepBetterAtIndex; mu in 0..7");
-    rep.alpha("parents and offspring: all sequences of length 0..S over objectives {0,1,2} with distinct tags, plus variants where the first offspring is an exact copy of the first parent; a sentinel population below both");
+    rep.alpha("parents and offspring: all sequences of length 0..S over objectives {0,1,2} with distinct tags, all sequences of length 1..2 over {0.0,-0.0,1e-17}, plus variants where the first offspring is an exact copy of the first parent; a sentinel population below both");
     rep.assume("for RandomReplacement every generator word of the shuffle is a choice (menu words + default), all tapes over the first D draws");
     let thorough = rep.tier == Tier::Thorough;
     let (s, depth, menu): (usize, usize, &[u64]) = if thorough { (3, 5, &MENU8) } else { (2, 4, &MENU4) };
@@ -160,6 +160,18 @@ pub fn run(rep: &mut Report) {
                         o3[0] = p[0];
                         pairs.push((p.clone(), o3));
                     }
+                }
+            }
+        }
+    }
+    // objective values that differ only in the sign of zero (equal: the parent wins ties) or by far less
+    // than the machine epsilon (different: the smaller one is better)
+    let fine = [0.0, -0.0, 1e-17];
+    for np in 1..=2usize {
+        for no in 1..=2usize {
+            for p in tagged_pops(np, &fine) {
+                for o in tagged_pops(no, &fine) {
+                    pairs.push((p.clone(), o.iter().map(|i| (i.0 + 10, i.1)).collect()));
                 }
             }
         }
